@@ -96,7 +96,7 @@ func hx(b []byte) string {
 	return fmt.Sprintf("#%d:%08x", len(b), h)
 }
 
-func b01(b bool) int {
+func b01i(b bool) int {
 	if b {
 		return 1
 	}
@@ -124,8 +124,8 @@ func viewOf(src []byte, limit int, f []byte) string {
 func fieldsOf(m message.Message) (string, [][]byte) {
 	switch m := m.(type) {
 	case *message.ConnectMessage:
-		cf := b01(m.CleanSession())<<1 | b01(m.WillFlag())<<2 | int(m.WillQos())<<3 |
-			b01(m.WillRetain())<<5 | b01(m.PasswordFlag())<<6 | b01(m.UsernameFlag())<<7
+		cf := b01i(m.CleanSession())<<1 | b01i(m.WillFlag())<<2 | int(m.WillQos())<<3 |
+			b01i(m.WillRetain())<<5 | b01i(m.PasswordFlag())<<6 | b01i(m.UsernameFlag())<<7
 		// fields that the flags exclude from the packet are not part of it
 		wt, wm, un, pw := m.WillTopic(), m.WillMessage(), m.Username(), m.Password()
 		if !m.WillFlag() {
@@ -141,13 +141,13 @@ func fieldsOf(m message.Message) (string, [][]byte) {
 				hx(m.ClientID()), hx(wt), hx(wm), hx(un), hx(pw)),
 			[][]byte{m.ClientID(), wt, wm, un, pw}
 	case *message.ConnackMessage:
-		return fmt.Sprintf("sp=%d rc=%d", b01(m.SessionPresent()), m.ReturnCode()), nil
+		return fmt.Sprintf("sp=%d rc=%d", b01i(m.SessionPresent()), m.ReturnCode()), nil
 	case *message.PublishMessage:
 		id := m.PacketID()
 		if m.QoS() == 0 { // a QoS 0 PUBLISH has no identifier field
 			id = 0
 		}
-		return fmt.Sprintf("dup=%d qos=%d ret=%d topic=%s id=%d payload=%s", b01(m.Dup()), m.QoS(), b01(m.Retain()),
+		return fmt.Sprintf("dup=%d qos=%d ret=%d topic=%s id=%d payload=%s", b01i(m.Dup()), m.QoS(), b01i(m.Retain()),
 			hx(m.Topic()), id, hx(m.Payload())), [][]byte{m.Topic(), m.Payload()}
 	case *message.SubscribeMessage:
 		var ps []string
